@@ -39,6 +39,7 @@ class C20(Prop):
         "NV.C20.tie_uid_writes_governed", "NV.C20.tie_uid_write_inventory", "NV.C20.tie_uid_rules_all_used", "NV.C20.tie_uid_records_never_renamed",
         "NV.C20.tie_seteuid_order", "NV.C20.tie_export_order", "NV.C20.tie_set_master_shape", "NV.C20.tie_reload_shape",
         "NV.C20.tie_load_tail_shape", "NV.C20.tie_clone_shape", "NV.C20.tie_init_object_shape", "NV.C20.tie_load_virtual_shape", "NV.C20.tie_bind_shape",
+        "NV.C20.tie_make_new_name_shape", "NV.C20.tie_destruct_vital_shape", "NV.C20.tie_error_texts",
     ]
     consts = [("autoTrustBackbone", "NV_AUTO_TRUST_BACKBONE"), ("autoSeteuid", "NV_AUTO_SETEUID"),
               ("tNumber", "T_NUMBER"), ("tString", "T_STRING"), ("msMudlibLimbo", "MS_MUDLIB_LIMBO"),
@@ -62,7 +63,7 @@ class C20(Prop):
                   "function-pointer evaluation/bind() by any objects incl. the master and the simul_efun object (also from inside "
                   "create() of objects under construction, also of virtual objects made by master::compile_object, also with a "
                   "master whose creator_file calls back into itself and drops its euid mid-creation) and every master policy the "
-                  "specification oracle judgeEv (8 clauses) accepts the model's event trace; the model is tied to the source by 26 "
+                  "specification oracle judgeEv (8 clauses) accepts the model's event trace; the model is tied to the source by 29 "
                   "regenerated bridging lemmas: path conditions of the euid tests, MASTER_APPROVED semantics, interleaved statement "
                   "order of f_seteuid/f_export_uid/f_bind/set_master/reload_object/load_object/clone_object/give_uid_to_object, and an "
                   "inventory of EVERY write to object_t.uid/euid in src/ and lib/ with a Lean-checked table that each falls under an "
